@@ -692,6 +692,66 @@ example : mulEvalF exG (evalPath exG (.iri 10)) .zeroOrMore false (some 1) none 
     mulEvalF exG (evalPath exG (.iri 11)) .zeroOrMore false (some 2) none = [(2, 4), (2, 5), (2, 6)] ∧
     mulEvalF exG (evalPath exG (.iri 10)) .zeroOrOne false none (some 9) = [] := by decide
 
+/-! ### Follow-up to round g — binding shapes of a path pattern in a BGP (`?x path ?x`, ends bound by other patterns) -/
+
+/-- `?x path ?x` answers exactly the diagonal of the relation over ALL nodes of the graph (subjects and objects alike, so
+    object-only nodes such as literals too); zero-length paths list every node; pre-bound to a term `a` (which may be absent
+    from the graph) it answers iff `(a, a)` is in the relation.  A variable bound by another pattern of the BGP restricts
+    the answers to that pattern's terms, whichever of the two is evaluated first. -/
+def Statement_bgp_binding_shapes : Prop :=
+  ∀ (g : Graph) (p : Path),
+    (∀ x y, (x, y) ∈ bgpSame g p none ↔ x = y ∧ relC g p x x ∧ x ∈ nodes g) ∧
+    (∀ a x y, (x, y) ∈ bgpSame g p (some a) ↔ x = a ∧ y = a ∧ relC g p a a) ∧
+    (∀ x y, (x, y) ∈ bgpSubjBefore g p ↔ relC g p x y ∧ ∃ t ∈ g, t.1 = x) ∧
+    (∀ x y, (x, y) ∈ bgpObjAfter g p ↔ (relC g p x y ∧ x ∈ nodes g ∧ y ∈ nodes g) ∧ ∃ t ∈ g, t.2.2 = y)
+
+theorem bgp_binding_shapes : Statement_bgp_binding_shapes := by
+  intro g p
+  refine ⟨?_, ?_, ?_, ?_⟩
+  · intro x y
+    simp only [bgpSame, List.mem_filter, path_computes g p none none x y, beq_iff_eq]
+    constructor
+    · rintro ⟨⟨hr, _, _, hn⟩, rfl⟩; exact ⟨rfl, hr, (hn trivial trivial).1⟩
+    · rintro ⟨rfl, hr, hn⟩; exact ⟨⟨hr, by simp, by simp, fun _ _ => ⟨hn, hn⟩⟩, rfl⟩
+  · intro a x y
+    simp only [bgpSame, path_computes g p (some a) (some a) x y]
+    constructor
+    · rintro ⟨hr, hs, ho, _⟩
+      obtain rfl := hs a rfl
+      obtain rfl := ho x rfl
+      exact ⟨rfl, rfl, hr⟩
+    · rintro ⟨rfl, rfl, hr⟩; exact ⟨hr, by simp, by simp, by simp⟩
+  · intro x y
+    simp only [bgpSubjBefore, List.mem_flatMap]
+    constructor
+    · rintro ⟨t, ht, h⟩
+      obtain ⟨hr, hs, _⟩ := (path_computes g p _ _ x y).mp h
+      exact ⟨hr, t, ht, (hs _ rfl).symm⟩
+    · rintro ⟨hr, t, ht, rfl⟩
+      exact ⟨t, ht, (path_computes g p _ _ _ y).mpr ⟨hr, by simp, by simp, by simp⟩⟩
+  · intro x y
+    simp only [bgpObjAfter, List.mem_filter, path_computes g p none none x y, List.any_eq_true, beq_iff_eq]
+    constructor
+    · rintro ⟨⟨hr, _, _, hn⟩, t, ht, e⟩; exact ⟨⟨hr, hn trivial trivial⟩, t, ht, e⟩
+    · rintro ⟨⟨hr, hn⟩, t, ht, e⟩; exact ⟨⟨hr, by simp, by simp, fun _ _ => hn⟩, t, ht, e⟩
+
+/-- `?x p* ?x`, `?x p? ?x` list every node of the graph — object-only nodes (literals) included -/
+theorem bgp_same_zero_length (g : Graph) (p : Path) (m : Mod) (hz : m.zero = true) (s q o : Term) (h : (s, q, o) ∈ g) :
+    (o, o) ∈ bgpSame g (.mul p m) none ∧ (s, s) ∈ bgpSame g (.mul p m) none := by
+  have hc : ∀ x, relC g (.mul p m) x x := by
+    intro x
+    rw [relC]
+    cases m with
+    | zeroOrOne => exact Or.inl rfl
+    | zeroOrMore => exact ReflTransGen.refl
+    | oneOrMore => simp [Mod.zero] at hz
+  have hn := triple_nodes h
+  exact ⟨((bgp_binding_shapes g _).1 o o).mpr ⟨rfl, hc o, hn.2⟩, ((bgp_binding_shapes g _).1 s s).mpr ⟨rfl, hc s, hn.1⟩⟩
+
+-- the object-only literal 7: `?x ^q/q ?x` and `?x q* ?x` on `3 q 7`
+example : bgpSame [(3, 11, 7)] (.seq (.inv (.iri 11)) [.iri 11]) none = [(7, 7)] ∧
+    bgpSame [(3, 11, 7)] (.mul (.iri 11) .zeroOrMore) none = [(3, 3), (7, 7)] := by decide
+
 /-! ### The repaired defects of the pinned code (before the `fix:` commits now on /repo main), kept as
     regression witnesses.  Each definition is the pre-fix generator; each theorem shows on a
     concrete instance that it violates the property. -/
